@@ -234,11 +234,25 @@ func runAlias(line []byte, rec *recorder) {
 		m.SetPCRPID(256)
 		for k := 0; k < 30; k++ {
 			hdr := buildPESHeader(muxHdrClasses[r.intn(len(muxHdrClasses))], 0, r)
-			payload := r.bytes(r.pick(1, 10, 183, 184, 185, 400, 2000))
-			before := digest(payload)
-			capBefore := cap(payload)
+			// the payload is a window of a larger caller buffer: nothing of that buffer may change, inside or outside the window
+			n := r.pick(1, 10, 183, 184, 185, 400, 2000)
+			buf := r.bytes(n + 300)
+			payload := buf[100 : 100+n]
+			before := digest(buf)
 			m.WriteData(&astits.MuxerData{PID: 256, AdaptationField: buildAF(muxAFClasses[r.intn(len(muxAFClasses))], r), PES: &astits.PESData{Header: hdr, Data: payload}})
-			events = append(events, M{"ev": "payload", "before": before, "after": digest(payload[:capBefore][:len(payload)])})
+			events = append(events, M{"ev": "payload", "api": "WriteData", "before": before, "after": digest(buf)})
+		}
+		for k := 0; k < 20; k++ {
+			n := r.pick(0, 1, 10, 100, 183, 184)
+			buf := r.bytes(n + 300)
+			before := digest(buf)
+			p := &astits.Packet{Header: astits.PacketHeader{PID: 0x1ffe, HasPayload: true, ContinuityCounter: uint8(k)}, Payload: buf[50 : 50+n]}
+			if k%3 == 0 && n <= 170 {
+				p.Header.HasAdaptationField = true
+				p.AdaptationField = &astits.PacketAdaptationField{HasPCR: true, PCR: &astits.ClockReference{Base: cr33(r)}}
+			}
+			m.WritePacket(p)
+			events = append(events, M{"ev": "payload", "api": "WritePacket", "before": before, "after": digest(buf)})
 		}
 	}
 	rankSpans(events)
